@@ -101,13 +101,13 @@ Example C03_nonvacuous_F06 :
              jls_decode 1000 s = Ok (mkDecoded [1; 8] 1 1 1 12 0)).
 Proof.
   split; [apply in_range_forallb; vm_compute; reflexivity|].
-  eexists. split; vm_compute; reflexivity.
+  eexists. split; [vm_compute; reflexivity|]. vm_compute. reflexivity.
 Qed.
 
 Example C03_nonvacuous_rgb :
   exists s, jls_encode 2 2 3 8 [255; 0; 7; 255; 0; 7; 0; 255; 9; 1; 2; 3] = Ok s /\
             jls_decode 1000 s = Ok (mkDecoded [255; 0; 7; 255; 0; 7; 0; 255; 9; 1; 2; 3] 2 2 3 8 0).
-Proof. eexists. split; vm_compute; reflexivity. Qed.
+Proof. eexists. split; [vm_compute; reflexivity|]. vm_compute. reflexivity. Qed.
 
 Example C03_nonvacuous_golomb_escape :
   (32 - (8 + 1) <= Z.shiftr 255 0 -> 255 - 1 < 2 ^ 8) /\
@@ -115,7 +115,7 @@ Example C03_nonvacuous_golomb_escape :
 Proof. split; [intros _; vm_compute; reflexivity | vm_compute; reflexivity]. Qed.
 
 Example C03_nonvacuous_writer : Forall wop_ok [(255, 8); (1, 1); (0, 31); (1, 32)] /\
-  gw_run [(255, 8); (1, 1); (0, 31); (1, 32)] = [255; 64; 0; 0; 0; 0; 0; 0; 0; 64].
+  gw_run [(255, 8); (1, 1); (0, 31); (1, 32)] = [255; 64; 0; 0; 0; 0; 0; 0; 0; 128].
 Proof.
   split; [|vm_compute; reflexivity].
   repeat constructor; unfold wop_ok; cbn [fst snd]; try lia; vm_compute; reflexivity.
